@@ -103,6 +103,9 @@ theorem specStepsRev_of_expand {ρ} (reqs : List Char → Option ρ) :
         | none => rw [hr] at h; cases h
         | some r =>
           rw [hr] at h
+          dsimp only at h
+          split at h
+          · cases h
           cases h
           by_cases hc : it.cnt ≤ 0
           · rw [if_pos hc, ih p h0]
@@ -161,6 +164,9 @@ theorem names_of_expand {ρ} (reqs : List Char → Option ρ) :
         | none => rw [hr] at h; cases h
         | some r =>
           rw [hr] at h
+          dsimp only at h
+          split at h
+          · cases h
           cases h
           simp only [List.flatMap_cons, List.flatMap_nil, hs, List.append_nil]
           show _ = specNames left.reverse ++ _
@@ -210,13 +216,14 @@ theorem parse_of_expand {ρ} (reqs : List Char → Option ρ) :
       · cases h
       · cases h
 
-/-- the descriptions the decoder accepts: every request name is known and every `sleep` item has an executed step
-before it (`seen` = some step has been produced already) -/
-def domOK {ρ} (reqs : List Char → Option ρ) : List Item → Bool → Bool
+/-- the descriptions the decoder accepts: every request name is known, every `sleep` item has an executed step
+before it, and no item lets the scenario grow beyond `MaxScenarioRequests` steps (`n` = number of steps produced so far) -/
+def domOK {ρ} (reqs : List Char → Option ρ) : List Item → Nat → Bool
   | [], _ => true
-  | it :: rest, seen =>
-    if it.name == sleepName then seen && domOK reqs rest seen
-    else (reqs it.name).isSome && domOK reqs rest (seen || decide (it.cnt > 0))
+  | it :: rest, n =>
+    if it.name == sleepName then decide (0 < n) && domOK reqs rest n
+    else (reqs it.name).isSome && decide (it.cnt ≤ maxScenarioRequests - (n : Int)) &&
+      domOK reqs rest (n + it.cnt.toNat)
 
 theorem bumpLast_none {ρ} (acc : List (Step ρ)) (ms : Int) : bumpLast acc ms = none ↔ acc = [] := by
   unfold bumpLast
@@ -232,10 +239,22 @@ theorem bumpLast_nonempty {ρ} (acc acc' : List (Step ρ)) (ms : Int) (h : bumpL
   | none => rw [hl] at h; cases h
   | some l => rw [hl] at h; cases h; simp
 
+theorem bumpLast_length {ρ} (acc acc' : List (Step ρ)) (ms : Int) (h : bumpLast acc ms = some acc') :
+    acc'.length = acc.length := by
+  unfold bumpLast at h
+  cases hl : acc.getLast? with
+  | none => rw [hl] at h; cases h
+  | some l =>
+    rw [hl] at h; cases h
+    have hne : acc ≠ [] := fun e => by subst e; simp at hl
+    have := List.length_pos_iff.mpr hne
+    simp [List.length_dropLast]
+    omega
+
 /-- the decoder succeeds exactly on the descriptions of `domOK` -/
 theorem expandItems_ok_iff {ρ} (reqs : List Char → Option ρ) :
     ∀ (items : List Item) (acc : List (Step ρ)),
-      (∃ steps, expandItems reqs items acc = .ok steps) ↔ domOK reqs items (!acc.isEmpty) = true
+      (∃ steps, expandItems reqs items acc = .ok steps) ↔ domOK reqs items acc.length = true
   | [], acc => by simp [expandItems, domOK]
   | it :: rest, acc => by
     simp only [expandItems, domOK, expandItem]
@@ -249,31 +268,54 @@ theorem expandItems_ok_iff {ρ} (reqs : List Char → Option ρ) :
       | some acc' =>
         have hne : acc ≠ [] := fun e => by
           have := (bumpLast_none acc it.cnt).mpr e; rw [hb] at this; cases this
-        have hne' := bumpLast_nonempty acc acc' it.cnt hb
+        have hpos : 0 < acc.length := List.length_pos_iff.mpr hne
         have ih := expandItems_ok_iff reqs rest acc'
-        have e1 : (!acc.isEmpty) = true := by cases acc <;> simp_all
-        have e2 : (!acc'.isEmpty) = true := by cases acc' <;> simp_all
-        simp only [e1, Bool.true_and]
-        rw [e2] at ih
+        rw [bumpLast_length acc acc' it.cnt hb] at ih
+        simp only [hpos, decide_true, Bool.true_and]
         exact ih
     · simp only [hs, Bool.false_eq_true, if_false]
       cases hr : reqs it.name with
       | none => simp
       | some r =>
         simp only [Option.isSome_some, Bool.true_and]
-        have ih := expandItems_ok_iff reqs rest
-          (acc ++ List.replicate it.cnt.toNat { name := it.name, req := r, sleep := if it.sleep > 0 then it.sleep else 0 })
-        have e : (!(acc ++ List.replicate it.cnt.toNat
-            ({ name := it.name, req := r, sleep := if it.sleep > 0 then it.sleep else 0 } : Step ρ)).isEmpty) =
-            ((!acc.isEmpty) || decide (it.cnt > 0)) := by
-          by_cases hc : it.cnt > 0
-          · have : it.cnt.toNat = (it.cnt.toNat - 1) + 1 := by omega
-            rw [this, List.replicate_succ]
-            cases acc <;> simp [hc]
-          · have : it.cnt.toNat = 0 := by omega
-            simp [this, hc]
-        rw [e] at ih
-        exact ih
+        by_cases hc : it.cnt > maxScenarioRequests - (acc.length : Int)
+        · have hn : ¬ (it.cnt ≤ maxScenarioRequests - (acc.length : Int)) := by omega
+          simp [hc, hn]
+        · have hn : it.cnt ≤ maxScenarioRequests - (acc.length : Int) := by omega
+          simp only [hc, if_false, hn, decide_true, Bool.true_and]
+          have ih := expandItems_ok_iff reqs rest
+            (acc ++ List.replicate it.cnt.toNat { name := it.name, req := r, sleep := if it.sleep > 0 then it.sleep else 0 })
+          simp only [List.length_append, List.length_replicate] at ih
+          exact ih
+
+/-- the length of an accepted step list never exceeds `MaxScenarioRequests` -/
+theorem expandItems_length {ρ} (reqs : List Char → Option ρ) :
+    ∀ (items : List Item) (acc steps : List (Step ρ)), (acc.length : Int) ≤ maxScenarioRequests →
+      expandItems reqs items acc = .ok steps → (steps.length : Int) ≤ maxScenarioRequests
+  | [], acc, steps, hacc, h => by
+    simp only [expandItems] at h; cases h; exact hacc
+  | it :: rest, acc, steps, hacc, h => by
+    simp only [expandItems] at h
+    split at h
+    · rename_i acc' he
+      refine expandItems_length reqs rest acc' steps ?_ h
+      unfold expandItem at he
+      split at he
+      · cases hb : bumpLast acc it.cnt with
+        | none => rw [hb] at he; cases he
+        | some a =>
+          rw [hb] at he; cases he
+          rw [bumpLast_length acc _ it.cnt hb]; exact hacc
+      · split at he
+        · cases he
+        · dsimp only at he
+          split at he
+          · cases he
+          · cases he
+            simp only [List.length_append, List.length_replicate]
+            omega
+    · cases h
+    · cases h
 
 /-- every expanded step carries the request definition registered under its name -/
 theorem expandItems_req {ρ} (reqs : List Char → Option ρ) :
@@ -303,6 +345,9 @@ theorem expandItems_req {ρ} (reqs : List Char → Option ρ) :
       · split at he
         · cases he
         · rename_i r hr
+          dsimp only at he
+          split at he
+          · cases he
           cases he
           intro st hst
           rcases List.mem_append.mp hst with e | e
